@@ -484,6 +484,9 @@ func (t *T) class() string {
 			if pk := normKey(t.Keys[i]); pk.Int {
 				kc = "k-int"
 			}
+			if t.Keys[i] == "length" {
+				kc = "k-length" // ObjectValue answers GetProperty("length") with its size
+			}
 			if kc != "k-alnum" {
 				d = kc + "=>" + d
 			}
@@ -570,6 +573,11 @@ func shrinks(t *T) []*T {
 		n.C = append(n.C[:i:i], n.C[i+1:]...)
 		if len(n.Keys) > 0 {
 			n.Keys = append(n.Keys[:i:i], n.Keys[i+1:]...)
+			for j := i; j < len(n.Keys); j++ { // neutral keys stay neutral at their new position
+				if n.Keys[j] == string(rune('a'+j+1)) {
+					n.Keys[j] = string(rune('a' + j))
+				}
+			}
 		}
 		out = append(out, n)
 	}
